@@ -53,7 +53,10 @@ def build_system(sd):
     n = sd['n']; types = TYPES[:n]
     s = pyPRISM.System(types, kT=sd['kT'])
     if sd.get('dom') is not None:
-        s.domain = pyPRISM.Domain(length=sd['dom'][0], dr=sd['dom'][1])
+        if sd.get('dom_from_dk'):
+            s.domain = pyPRISM.Domain(length=sd['dom'][0], dk=math.pi / (sd['dom'][1] * sd['dom'][0]))      # the same grid, configured through dk
+        else:
+            s.domain = pyPRISM.Domain(length=sd['dom'][0], dr=sd['dom'][1])
     for t, v in enumerate(sd['dens']):
         if v is not None: s.density[types[t]] = v
     for t, v in enumerate(sd['diam']):
